@@ -7,6 +7,8 @@ import Wbxml.Spec.XmlText
 import Wbxml.Lemmas.XmlPrint
 import Wbxml.Lemmas.XmlNs
 import Wbxml.Lemmas.Ident
+import Wbxml.Lemmas.XmlSpecDoc
+import Wbxml.Gen.Tables
 namespace Wbxml.Props.C05
 open Wbxml Wbxml.Model Wbxml.Spec Wbxml.Lemmas.XmlPrint Wbxml.Lemmas.XmlNs
 
@@ -642,6 +644,313 @@ theorem doctype_recognised (main : List Lang) (lang : Lang) (p : Bytes) (hp : la
     refine ⟨l', ?_, rfl, List.find?_some hf⟩
     rw [Wbxml.Lemmas.Ident.searchTable_eq]
     simp [Wbxml.Lemmas.Ident.byPub, hf]
+
+
+/-! ## The output is a well-formed XML document that denotes the tree
+
+`Spec/Xml.lean` is a specification of well-formed XML written from the XML 1.0 Recommendation
+(productions [1] document … [2] Char for the constructs the printer can emit; a strict reader
+`Spec.Xml.read : Bytes → Option XDoc`), independent of the printer; the check ties it to Expat
+(`SPECX` against `EXPATN` on every output and on a malformed stream). The theorems below are about
+compact and canonical generation (`gen` 0 and 2), any keep-white-space setting, any fuel, and every
+tree satisfying the decidable precondition `xmlRepresentable cfg t` (Lemmas/XmlSpecDoc.lean, spelled out
+in `representable_meaning` / `representable_nodes`; embedded documents included). Outside the
+predicate, hence `_partial`: CDATA nodes with several children or with an embedded document inside
+(the tree builder merges adjacent text, `addKid`, so it builds the former only around an embedded
+document), and indented generation. -/
+
+open Wbxml.Lemmas.XmlSpec Wbxml.Spec.Xml Wbxml.Lemmas.EncW in
+/-- **(a) The output is a well-formed XML document**: whenever the printer succeeds on a
+    representable tree, the specification reader accepts the octets. -/
+theorem output_well_formed_partial (cfg : W2XCfg) (hgen : cfg.gen = 0 ∨ cfg.gen = 2) (fuel : Nat) (t : Tree)
+    (xml : Bytes) (hrep : xmlRepresentable cfg t = true) (h : treeToXml cfg fuel t = .ok xml) :
+    ∃ d, Spec.Xml.read xml = some d := by
+  have hg : (cfg.gen == 1) = false := by rcases hgen with h | h <;> simp [h]
+  obtain ⟨lang, _, hr⟩ := treeToXml_read cfg hg fuel t xml hrep h
+  exact ⟨_, hr⟩
+
+open Wbxml.Lemmas.XmlSpec Wbxml.Spec.Xml Wbxml.Lemmas.EncW in
+/-- **(b) … that denotes exactly the tree**: it has the XML declaration `version="1.0"`, the
+    language's DOCTYPE — root name, public identifier (none when the language has none or an empty
+    one) and system identifier exactly as registered — and its root element is `xview cfg t`: the
+    tree's elements in order, each with the namespace declaration `xml_encode_tag` adds (as attribute
+    `xmlns`) followed by its attributes (`attr_view`), and its character data (`text_view_*`),
+    adjacent text nodes and CDATA nodes joined (`content_view`). -/
+theorem output_denotes_tree_partial (cfg : W2XCfg) (hgen : cfg.gen = 0 ∨ cfg.gen = 2) (fuel : Nat) (t : Tree)
+    (xml : Bytes) (hrep : xmlRepresentable cfg t = true) (h : treeToXml cfg fuel t = .ok xml)
+    (lang : Lang) (hl : t.lang = some lang) :
+    Spec.Xml.read xml = some
+      { version := some b!"1.0",
+        doctype := some { name := lang.pub.root.getD [],
+                          pubid := (match lang.pub.xmlId with
+                            | some p => if p.isEmpty then none else some p
+                            | none => none),
+                          sysid := some (lang.pub.dtd.getD []) },
+        root := xview cfg t } := by
+  have hg : (cfg.gen == 1) = false := by rcases hgen with h | h <;> simp [h]
+  obtain ⟨lang', hl', hr⟩ := treeToXml_read cfg hg fuel t xml hrep h
+  rw [hl] at hl'
+  injection hl' with hl'
+  subst hl'
+  exact hr
+
+open Wbxml.Lemmas.XmlSpec Wbxml.Spec.Xml Wbxml.Lemmas.EncW in
+/-- (a)+(b) for the whole conversion `wbxml_conv_wbxml2xml_run`: when it succeeds and the tree it built
+    is representable, its output is read back as that tree. -/
+theorem conversion_output_denotes_tree_partial (cfg : W2XCfg) (hgen : cfg.gen = 0 ∨ cfg.gen = 2) (wbxml xml : Bytes)
+    (h : wbxml2xml cfg wbxml = .ok xml) :
+    ∃ t, treeOfWbxml cfg.main (wbxml.length + 1) cfg.lang cfg.charset wbxml = .ok t ∧
+      (xmlRepresentable cfg t = true → ∃ d, Spec.Xml.read xml = some d ∧ d.root = xview cfg t ∧
+        d.doctype = t.lang.map xdoctype) := by
+  unfold wbxml2xml at h
+  split at h
+  · cases h
+  · cases ht : treeOfWbxml cfg.main (wbxml.length + 1) cfg.lang cfg.charset wbxml with
+    | error e => rw [ht] at h; cases h
+    | ok t =>
+      rw [ht] at h
+      simp only [bind, Except.bind] at h
+      refine ⟨t, rfl, fun hrep => ?_⟩
+      have hg : (cfg.gen == 1) = false := by rcases hgen with h | h <;> simp [h]
+      obtain ⟨lang, hl, hr⟩ := treeToXml_read cfg hg _ t xml hrep h
+      exact ⟨_, hr, rfl, by simp [hl]⟩
+
+/-! ### What `xview` is -/
+
+open Wbxml.Lemmas.XmlSpec Wbxml.Spec.Xml Wbxml.Lemmas.EncW Wbxml.Lemmas.XmlPrint in
+/-- The root: the element's name, its attributes, its content — printed with the options
+    `wbxml_tree_to_xml` derives (`xcfgOf`), under no enclosing token element, the encoder knowing no
+    current tag. -/
+theorem root_view (cfg : W2XCfg) (t : Tree) (lang : Lang) (name : Name) (attrs : List Attr) (kids : List Node)
+    (hl : t.lang = some lang) (hr : t.root = some (.elt name attrs kids)) :
+    xview cfg t = .elem name.xmlName ((vAttrs (xcfgOf cfg lang) .none name attrs).map PAttr.view)
+      (vNodes (xcfgOf cfg lang) (childScope .none name) (tagOf name) kids []) := by
+  simp [xview, hl, hr, xelem]
+
+open Wbxml.Lemmas.XmlSpec Wbxml.Spec.Xml Wbxml.Lemmas.EncW Wbxml.Lemmas.XmlPrint in
+/-- Content lists, node by node (`vNodes c p cur kids R`: the children `kids` of an element whose tag
+    is `cur`, followed by `R`): an element child is one item — printed under the scope its parent
+    hands down, the nearest token-element ancestor —; a text node and a CDATA node with a text node add
+    their character data in front of what follows, joining a text item there; the first child is
+    written while the encoder's current tag is the parent's, every later one after it was reset; an
+    embedded document contributes its root, printed by an encoder of its own (the embedded language,
+    no enclosing element, no current tag — its root element declares its namespace again). -/
+theorem content_view (c : XCfg) (p : Parent) (cur : Option TagRow) (R : List XItem) :
+    vNodes c p cur [] R = R ∧
+    (∀ n rest, vNodes c p cur (n :: rest) R = vNode c p cur n (vNodes c p none rest R)) ∧
+    (∀ name attrs kids, vNode c p cur (.elt name attrs kids) R =
+      .elem name.xmlName ((vAttrs c p name attrs).map PAttr.view) (vNodes c (childScope p name) (tagOf name) kids []) :: R) ∧
+    (∀ s, vNode c p cur (.text s) R = addText (vText c cur s) R) ∧
+    (∀ s, vNode c p cur (.cdata [.text s]) R = addText (eolNorm s) R) ∧
+    vNode c p cur (.cdata []) R = R ∧
+    (∀ l cs r, vNode c p cur (.tree (some l) cs (some r)) R = vNode { c with lang := l } .none none r R) := by
+  refine ⟨by simp [vNodes], fun _ _ => by simp [vNodes], fun _ _ _ => by simp [vNode], fun _ => by simp [vNode],
+    fun _ => by simp [vNode], by simp [vNode], fun _ _ _ => by simp [vNode]⟩
+
+open Wbxml.Lemmas.XmlSpec Wbxml.Spec.Xml Wbxml.Lemmas.EncW Wbxml.Lemmas.XmlNs in
+/-- Attributes: the namespace declaration of `xmlns_declared_iff_page_differs` first, as an ordinary
+    attribute `xmlns` with the registered namespace name; then, in a language with an attribute table,
+    the element's attributes in order, name and value read as C strings (up to the first NUL), the
+    value as `attNorm` gives it. -/
+theorem attr_view (c : XCfg) (p : Parent) (name : Name) (attrs : List Attr) :
+    (vAttrs c p name attrs).map PAttr.view =
+      (match declaredNs c p name with
+       | some ns => [(b!"xmlns", ns)]
+       | none => []) ++
+      (if c.lang.attrs.isSome then
+         attrs.map fun a => (cstrOf a.name.xmlName, attNorm (c.gen == 2) (cstrOf a.value))
+       else []) := by
+  unfold vAttrs
+  rw [List.map_append]
+  congr 1
+  · cases declaredNs c p name <;> rfl
+  · split <;> simp [PAttr.view, List.map_map, Function.comp_def]
+
+open Wbxml.Lemmas.XmlSpec in
+/-- **Attribute values: exactly in canonical generation; otherwise TAB and LF become spaces** (they
+    are written literally and §3.3.3 applies on reading) **and everything else — CR included, which is
+    always written `&#13;` — is exact.** -/
+theorem attr_value_view (v : Bytes) :
+    attNorm true v = v ∧ attNorm false v = v.map (fun b => if b == 10 || b == 9 then 32 else b) ∧
+    ((∀ b ∈ v, b ≠ 10 ∧ b ≠ 9) → attNorm false v = v) := by
+  refine ⟨rfl, rfl, fun h => ?_⟩
+  show v.map attNorm1 = v
+  induction v with
+  | nil => rfl
+  | cons a r ih =>
+    have ha := h a List.mem_cons_self
+    simp only [List.map_cons, List.cons.injEq]
+    exact ⟨by simp [attNorm1, ha.1, ha.2], ih (fun b hb => h b (List.mem_cons_of_mem _ hb))⟩
+
+open Wbxml.Lemmas.XmlSpec Wbxml.Lemmas.EncW in
+/-- **Character data, canonical generation: exact** — the text node's octets, CR LF TAB included —
+    in an element that is not binary-flagged (there: the base64 form the printer substitutes), except
+    for the SyncML media-type rewriting inside `Type` (`textStr`). -/
+theorem text_view_canonical (c : XCfg) (hg : c.gen = 2) (cur : Option TagRow) (s : Bytes) :
+    vText c cur s = (if isBinaryTag cur then b64EncodeGo (textStr c.lang.id cur s) else textStr c.lang.id cur s) ∧
+    ((∀ r, cur = some r → (r.page == 1 && r.token == 0x13) = false) → textStr c.lang.id cur s = s) := by
+  refine ⟨by simp [vText, hg], fun h => ?_⟩
+  unfold textStr
+  cases cur with
+  | none => simp
+  | some r => simp [h r rfl]
+
+open Wbxml.Lemmas.XmlSpec Wbxml.Lemmas.EncW in
+/-- **Character data, compact generation**: with white space kept, as in canonical generation (exact:
+    a CR is written `&#13;`, everything else literally, and nothing the reader normalises is left);
+    otherwise a text node of white space only contributes nothing and any other is stripped of leading
+    and trailing blanks first (`xml_encode_text`) — not in a binary-flagged element. -/
+theorem text_view_compact (c : XCfg) (hg : c.gen = 0) (cur : Option TagRow) (s : Bytes) (hb : isBinaryTag cur = false) :
+    (c.ignoreEmpty = false → c.removeBlanks = false → vText c cur s = textStr c.lang.id cur s) ∧
+    (c.ignoreEmpty = true → c.removeBlanks = true →
+      vText c cur s = if s.all isSpaceC then [] else textStr c.lang.id cur (stripBlanks s)) := by
+  refine ⟨fun h1 h2 => by simp [vText, hg, hb, h1, h2], fun h1 h2 => by simp [vText, hg, hb, h1, h2]⟩
+
+open Wbxml.Lemmas.XmlSpec in
+/-- **CDATA nodes contribute their text**; it is written as it is, so a reader applies XML's line-end
+    handling (§2.11): exact when the text has no CR. -/
+theorem cdata_view (s : Bytes) (h : ∀ b ∈ s, b ≠ 13) : eolNorm s = s := by
+  induction s with
+  | nil => rfl
+  | cons a r ih =>
+    have ha : (a == 13) = false := by simpa using h a List.mem_cons_self
+    rw [eolNorm.eq_def]
+    simp only [ha, Bool.false_eq_true, ↓reduceIte, ih (fun b hb => h b (List.mem_cons_of_mem _ hb))]
+
+example : Wbxml.Lemmas.XmlSpec.eolNorm b!"a\r\nb\rc\n" = b!"a\nb\nc\n" := by decide
+
+/-! ### The precondition -/
+
+open Wbxml.Lemmas.XmlSpec Wbxml.Spec.Xml Wbxml.Lemmas.EncW Wbxml.Lemmas.XmlPrint Wbxml.Lemmas.XmlNs in
+/-- `xmlRepresentable` spelled out: language entry, root element, and node by node. -/
+theorem representable_meaning (cfg : W2XCfg) (t : Tree) :
+    xmlRepresentable cfg t = true ↔
+      ∃ lang name attrs kids, t.lang = some lang ∧ t.root = some (.elt name attrs kids) ∧
+        langOk lang = true ∧ okNode (xcfgOf cfg lang) .none none (.elt name attrs kids) = true := by
+  unfold xmlRepresentable
+  constructor
+  · intro h
+    cases hl : t.lang with
+    | none => simp [hl] at h
+    | some lang =>
+      cases hr : t.root with
+      | none => simp [hl, hr] at h
+      | some root =>
+        cases root with
+        | elt name attrs kids =>
+          simp only [hl, hr, Bool.and_eq_true] at h
+          exact ⟨lang, name, attrs, kids, rfl, rfl, h.1, h.2⟩
+        | text s => simp [hl, hr] at h
+        | cdata k => simp [hl, hr] at h
+        | tree a b c => simp [hl, hr] at h
+  · rintro ⟨lang, name, attrs, kids, hl, hr, h1, h2⟩
+    simp [hl, hr, h1, h2]
+
+open Wbxml.Lemmas.XmlSpec Wbxml.Spec.Xml Wbxml.Lemmas.EncW Wbxml.Lemmas.XmlPrint Wbxml.Lemmas.XmlNs in
+/-- … node by node: names are Names, attribute values and character data are UTF-8 for XML
+    characters, no attribute name twice in a start tag, namespace names are plain, a CDATA node holds
+    at most one text node, an embedded document has a language and a root that satisfies the same
+    conditions under its own language. -/
+theorem representable_nodes (c : XCfg) (p : Parent) (cur : Option TagRow) :
+    (∀ name attrs kids, okNode c p cur (.elt name attrs kids) =
+      (isName name.xmlName && attrsOk c p name attrs && okNodes c (childScope p name) (tagOf name) kids)) ∧
+    (∀ s, okNode c p cur (.text s) = xmlChars (vText c cur s)) ∧
+    okNode c p cur (.cdata []) = true ∧ (∀ s, okNode c p cur (.cdata [.text s]) = xmlChars s) ∧
+    (∀ l cs r, okNode c p cur (.tree (some l) cs (some r)) = okNode { c with lang := l } .none none r) ∧
+    (∀ cs r, okNode c p cur (.tree none cs r) = false) ∧ (∀ l cs, okNode c p cur (.tree l cs none) = false) ∧
+    okNodes c p cur [] = true ∧ (∀ n rest, okNodes c p cur (n :: rest) = (okNode c p cur n && okNodes c p none rest)) ∧
+    (∀ name attrs, attrsOk c p name attrs =
+      ((match declaredNs c p name with
+        | some ns => ns.all isPlainAtt && xmlChars ns
+        | none => true) &&
+       (if c.lang.attrs.isSome then
+          attrs.all fun a => isName (cstrOf a.name.xmlName) && xmlChars (cstrOf a.value)
+        else true) &&
+       nodup ((vAttrs c p name attrs).map (·.name)))) := by
+  refine ⟨fun _ _ _ => by simp [okNode], fun _ => by simp [okNode], by simp [okNode], fun _ => by simp [okNode],
+    fun _ _ _ => by simp [okNode], fun _ _ => by simp [okNode], fun l _ => by cases l <;> simp [okNode],
+    by simp [okNodes], fun _ _ => by simp [okNodes], fun _ _ => rfl⟩
+
+open Wbxml.Lemmas.XmlSpec in
+/-- **Every registered language satisfies the language part of the precondition** (complete table):
+    its root name is a Name, its public identifier consists of PubidChars, its DTD location has no
+    double quote — and every registered namespace name can be written between double quotes as it is. -/
+theorem registered_languages_ok :
+    Gen.main.all langOk = true ∧
+    Gen.main.all (fun l => (l.ns.getD []).all fun r => r.ns.all isPlainAtt && Spec.Xml.xmlChars r.ns) = true := by
+  decide +kernel
+
+/-! ### The precondition is needed, conjunct by conjunct
+
+For each conjunct a tree that violates only it, on which the printer succeeds and whose output the
+specification reader refuses (`rejected`); `wfLang` has an attribute table and two code pages. -/
+
+def wfLang : Lang :=
+  { id := 9998, pub := { wbxmlId := 1, xmlId := some b!"-//X//DTD T 1.0//EN", root := some b!"doc", dtd := some b!"http://x/t.dtd" },
+    tags := some [{ name := b!"item", page := 0, token := 5, opts := 0 }, { name := b!"other", page := 1, token := 5, opts := 0 }],
+    ns := some [{ ns := b!"urn:p0", page := 0 }, { ns := b!"urn:p1", page := 1 }], attrs := some [], values := none, exts := none }
+
+def wfCfg (gen : Nat) : W2XCfg := { main := [wfLang], gen := gen, keepWs := true }
+def wfTree (l : Lang) (r : Node) : Tree := { lang := some l, origCharset := 106, root := some r }
+
+/-- The printer produced an output and `Spec.Xml.read` refuses it. -/
+def rejected (cfg : W2XCfg) (t : Tree) : Bool :=
+  match treeToXml cfg 10 t with
+  | .ok xml => (Spec.Xml.read xml).isNone
+  | .error _ => false
+
+def wfItem : Name := .token { name := b!"item", page := 0, token := 5, opts := 0 }
+def lit (s : Bytes) (attrs : List Attr) (kids : List Node) : Node := .elt (.literal s) attrs kids
+
+/-- Non-vacuity: a tree with a token element (namespace declared), an attribute with `<` and a
+    trailing NUL, text with `&`, an empty literal element, a CDATA node with `]]>` and CR LF, and
+    a two-octet character is representable, in both modes; its output is accepted and denotes it. -/
+def wfGood : Tree := wfTree wfLang (.elt wfItem [{ name := .literal b!"id", value := [97, 60, 98, 9, 0] }]
+  [.text b!"x&y", lit b!"lit" [] [], .cdata [.text b!"c]]>d\r\ne"], .text [0xC3, 0xA9]])
+
+open Wbxml.Lemmas.XmlSpec in
+example : xmlRepresentable (wfCfg 0) wfGood = true ∧ xmlRepresentable (wfCfg 2) wfGood = true ∧
+    rejected (wfCfg 0) wfGood = false ∧ rejected (wfCfg 2) wfGood = false := by decide +kernel
+
+open Wbxml.Lemmas.XmlSpec Wbxml.Spec.Xml in
+example : (xview (wfCfg 0) wfGood).same
+    (.elem b!"item" [(b!"xmlns", b!"urn:p0"), (b!"id", b!"a<b ")]
+      [.text b!"x&y", .elem b!"lit" [] [], .text ([99, 93, 93, 62, 100, 10, 101, 0xC3, 0xA9])]) = true := by decide +kernel
+open Wbxml.Lemmas.XmlSpec Wbxml.Spec.Xml in
+example : (xview (wfCfg 2) wfGood).same
+    (.elem b!"item" [(b!"xmlns", b!"urn:p0"), (b!"id", [97, 60, 98, 9])]
+      [.text b!"x&y", .elem b!"lit" [] [], .text ([99, 93, 93, 62, 100, 10, 101, 0xC3, 0xA9])]) = true := by decide +kernel
+example : (match treeToXml (wfCfg 0) 10 wfGood with
+    | .ok xml => xml == b!"<?xml version=\"1.0\"?><!DOCTYPE doc PUBLIC \"-//X//DTD T 1.0//EN\" \"http://x/t.dtd\"><item xmlns=\"urn:p0\" id=\"a&lt;b\t\">x&amp;y<lit/><![CDATA[c]]]]><![CDATA[>d\r\ne]]>" ++ [0xC3, 0xA9] ++ b!"</item>"
+    | .error _ => false) = true := by
+  decide +kernel
+
+open Wbxml.Lemmas.XmlSpec in
+/-- **Necessity witnesses.** An element name that is not a Name (`1a`; a name with a blank; a name
+    with a NUL); an attribute name that is not a Name; a C0 control character in character data; an
+    octet sequence that is not UTF-8; a control character in an attribute value; the same attribute
+    name twice; an attribute called `xmlns` next to the namespace declaration; a CDATA node whose two
+    text nodes put `]]>` together; a root that is not an element; a language without root name; a
+    namespace name with a double quote; a public identifier with a character that is not a PubidChar. -/
+theorem precondition_needed :
+    let bad (cfg : W2XCfg) (t : Tree) : Bool := !xmlRepresentable cfg t && rejected cfg t
+    bad (wfCfg 0) (wfTree wfLang (lit b!"1a" [] [])) = true ∧
+    bad (wfCfg 0) (wfTree wfLang (lit b!"a b" [] [])) = true ∧
+    bad (wfCfg 0) (wfTree wfLang (lit [97, 0, 98] [] [])) = true ∧
+    bad (wfCfg 0) (wfTree wfLang (lit b!"a" [{ name := .literal b!"-x", value := b!"v" }] [])) = true ∧
+    bad (wfCfg 2) (wfTree wfLang (lit b!"a" [] [.text [1]])) = true ∧
+    bad (wfCfg 2) (wfTree wfLang (lit b!"a" [] [.text [0xC0, 0x80]])) = true ∧
+    bad (wfCfg 2) (wfTree wfLang (lit b!"a" [] [.text [0xED, 0xA0, 0x80]])) = true ∧
+    bad (wfCfg 2) (wfTree wfLang (lit b!"a" [] [.cdata [.text [0xFF]]])) = true ∧
+    bad (wfCfg 0) (wfTree wfLang (lit b!"a" [{ name := .literal b!"x", value := [0x1F] }] [])) = true ∧
+    bad (wfCfg 0) (wfTree wfLang (lit b!"a" [{ name := .literal b!"x", value := b!"1" }, { name := .literal b!"x", value := b!"2" }] [])) = true ∧
+    bad (wfCfg 0) (wfTree wfLang (.elt wfItem [{ name := .literal b!"xmlns", value := b!"u" }] [])) = true ∧
+    bad (wfCfg 0) (wfTree wfLang (lit b!"a" [] [.cdata [.text b!"]]", .text b!">"]])) = true ∧
+    bad (wfCfg 0) (wfTree wfLang (.text b!"a")) = true ∧
+    bad (wfCfg 0) (wfTree { wfLang with pub := { wfLang.pub with root := none } } (lit b!"a" [] [])) = true ∧
+    bad (wfCfg 0) (wfTree { wfLang with ns := some [{ ns := b!"a\"b", page := 0 }] } (.elt wfItem [] [])) = true ∧
+    bad (wfCfg 0) (wfTree { wfLang with pub := { wfLang.pub with xmlId := some b!"a{b" } } (lit b!"a" [] [])) = true := by
+  decide +kernel
 
 
 end Wbxml.Props.C05
